@@ -167,7 +167,7 @@ theorem org_pseudo : ∀ r ∈ Gen.instructions, r.mnemonic = "ORG" → r.isPseu
 
 /-! ### what `fix_addresses` does to the operand field -/
 
-theorem addrCombine_numeric {op : Char} {a : Nat} {add : Int} {v : Value} (h : addrCombine op a add = .ok v) :
+theorem addrCombine_numeric {op : Char} {a add : Int} {v : Value} (h : addrCombine op a add = .ok v) :
     v.isNumeric = true := by
   unfold addrCombine at h
   dsimp only at h
@@ -219,7 +219,7 @@ theorem fixOne_field {ss : List Stmt} {i : Nat} {s sf : Stmt}
           simp only [Outcome.bind] at h
           -- step 3
           have h3 : sf.pkg.additional.isNumeric = true ∨ (sf = s2 ∧ s2.pkg.needsRes = false) := by
-            unfold fixStep3 at h
+            unfold fixStep3 fixAbs at h
             split at h
             · left
               repeat' split at h
@@ -366,6 +366,38 @@ theorem p_addr (tr : Trace st i s) : tr.p.address = .none ∨ tr.p.address.isNum
     unfold translateOperand at htr
     rw [hk] at htr
     exact translatePseudo_org_numeric hm htr
+
+/-- PSHS / TFR ..., and the directives other than FCB / FDB (the rows `fitWidth` skips): emitted as translated -/
+theorem plainShape (tr : Trace st i s) (hsk : fitSkipped tr.s0.row = true) : PlainShape tr.o tr.p := by
+  have hrow := tr.rowFacts
+  have sh1 := tr.shape1
+  have htr := tr.htr
+  have hres := tr.hres
+  obtain ⟨_, _, _, _, _, f6, f7, f8⟩ := rowFacts_multi hrow
+  obtain ⟨txt, hcr⟩ := tr.parsed.2
+  obtain ⟨k1, k2, _, _⟩ := createOperand_kind hcr
+  cases hsp : tr.s0.row.isSpecial with
+  | true =>
+    have hp := f6 hsp
+    have hk0 := k2 hp hsp
+    have hk : tr.o.kind = .special := by
+      rcases resolveOperand_kind hres with h' | ⟨h', _⟩
+      · rw [h']; exact hk0
+      · rw [hk0] at h'; cases h'
+    unfold translateOperand at htr
+    rw [hk] at htr
+    exact translateSpecial_plain hrow hsp (sh1.nov (.inl hk)) htr
+  | false =>
+    unfold fitSkipped at hsk
+    rw [hsp] at hsk
+    simp only [Bool.or_false, Bool.and_eq_true, Bool.not_eq_true', Bool.or_eq_false_iff] at hsk
+    obtain ⟨hp, hmb, hmw⟩ := hsk
+    have hk : tr.o.kind = .pseudo := (resolveOperand_kind_pseudo hres).2 (k1 hp)
+    unfold translateOperand at htr
+    rw [hk] at htr
+    refine translatePseudo_plain ?_ ?_ (sh1.plain hk) htr
+    · intro hm; rw [f7 hm] at hmb; cases hmb
+    · intro hm; rw [f8 hm] at hmw; cases hmw
 
 end Trace
 
